@@ -413,7 +413,7 @@ func checkC05(r *core.Run, p *core.Program) {
 				}
 			}
 			inspectCalls(info, lit.Body, func(c *ast.CallExpr, cal *types.Func) {
-				if cal == nil || cal.Name() != "shouldIncludeField" || len(c.Args) < 2 {
+				if pred := omitPredicate(p); cal == nil || pred == nil || cal != pred.Obj || len(c.Args) < 2 {
 					return
 				}
 				obj := objOf(info, c.Args[1])
@@ -531,6 +531,9 @@ func checkC05(r *core.Run, p *core.Program) {
 		if lit != nil {
 			e.addParams(f.Obj)
 			got = strings.Join(e.stmts(info, lit.Body.List), "; ")
+		}
+		if pred := omitPredicate(p); pred != nil {
+			got = strings.ReplaceAll(got, core.ObjName(pred.Obj)+"(", "iterator.shouldIncludeField(") // a renamed predicate reads the same
 		}
 		want := "iface.OnMap(); range($v1,$v2:$v3){def($v4=(*iterator.structField).getValueFromStruct($v5)); if(iterator.shouldIncludeField($v2,$v4,$ctx.Configuration.Iterator.DefaultFieldOmitBehavior)){if(!$v2.IsAnonymous){iface.OnStringlikeArray(ArrayTypeString,$v2.Name)}; callfield:Iterate($v6,$v4)}}; iface.OnEndContainer()"
 		r.Check("C05.struct-fields", "iterator.newStructIterator$1", f.Decl.Pos(), sameEffect(got, []string{want}), "the struct iterator does `"+got+"`; required `"+want+"`")
